@@ -235,3 +235,9 @@ pub fn ranges(ids: &[i64]) -> Vec<[i64; 2]> {
 pub fn jline(v: Value) -> String {
     serde_json::to_string(&v).unwrap()
 }
+
+/// `rand_bytes` with a length drawn from `lo..hi`.
+pub fn rand_bytes_in(rng: &mut StdRng, lo: usize, hi: usize) -> Vec<u8> {
+    let n = rng.gen_range(lo..hi);
+    rand_bytes(rng, n)
+}
